@@ -35,14 +35,14 @@ func init() {
 		ID: "C09",
 		Meta: func(tier string) fw.Meta {
 			return fw.Meta{
-				Flavours: []string{"race", "plain"},
+				Flavours: []string{"race", "plain", "386"},
 				Blocks:   16,
 				Procs:    8,
 				Rule: "case = one concurrent run on one cache (LRU store behind a serialisation-checking proxy, or - a quarter of the recorded histories - the plain cache a user builds: no proxy, no eviction callback; 3-5 keys so that at most 5 heap entries exist and finding F1 cannot occur; limit 2-4 with unit sizes or limit 4-8 with sizes 0-3). " +
 					"(a) linearizability cases: 2-4 goroutines x 4-8 ops of Has/Get/Put/Remove/Len/Size/Clear, call/return stamped from one atomic counter at the client boundary, unique value id per Put, checked with porcupine against the reference LRU (no partitioning: eviction/Len/Size/Clear couple the keys), then a final Clear and the exactly-once accounting of the eviction log; " +
 					"(b) stress cases: 2-8 goroutines x 150-400 ops with goroutine-local results only (no harness synchronisation that could hide a race), an observer goroutine probing Size() and the accounting hook, run under the race detector and plain. (c) large-cache cases: a cache of 257..4097 unit entries is cleared while 2-4 observers call Len/Size (and optionally one Put races): every observation must be explained by Clear being one atomic step, and every entry must be reported evicted exactly once. (d) high-rate invariant cases without recording: a key that is only ever replaced must always be reported present; after a goroutine's own Clear its private key must be absent. GOMAXPROCS in {1,2,4,16} by block; random yields before calls and inside the proxy/size function/eviction callback. " +
 					"distinct = hash(per-client op lists, set of overlapping op pairs) = distinct interleavings observed; non-trivial = at least one pair of conflicting operations (same key, or one of them Len/Size/Clear/evicting Put) overlapped in real time",
-				Required:     []string{"lin_histories", "lin_overlapping_conflicting_pairs", "lin_histories_with_eviction_and_overlap", "stress_rounds", "stress_ops", "store_proxy_calls", "observer_probes", "evictions_logged", "porcupine_ok", "large_clear_cases", "large_clear_observations", "invariant_cases", "invariant_ops", "histories_on_plain_cache", "histories_with_sizes_beyond_2_to_the_31"},
+				Required:     []string{"lin_histories", "lin_overlapping_conflicting_pairs", "lin_histories_with_eviction_and_overlap", "stress_rounds", "stress_ops", "store_proxy_calls", "observer_probes", "evictions_logged", "porcupine_ok", "large_clear_cases", "large_clear_observations", "invariant_cases", "invariant_ops", "histories_on_plain_cache", "histories_with_sizes_beyond_2_to_the_31", "monotone_observation_cases"},
 				Assumptions:  []string{"sequential specification = reference LRU of C08; key space <= 5 so that the heap never has more than 5 entries and known finding F1/F2 cannot influence results", "the race detector only sees accesses that actually overlapped without an intervening happens-before edge", "porcupine v1.3.0 is trusted as the linearizability decision procedure (60 s timeout => inconclusive)"},
 				CoverPkgs:    []string{"github.com/creachadair/mds/cache"},
 				CoverAnchors: []string{"cache/cache.go"},
@@ -890,6 +890,77 @@ func c09invariantCase(c *fw.Ctx, r *rand.Rand) {
 	}
 }
 
+// c09monotoneCase: observations that must be ordered even under concurrency.
+// A plain unit-size cache far below its limit only grows (new keys are put)
+// and later only shrinks (keys are removed): the number of entries and the
+// total size are equal at every instant and monotone, so the chain of values an
+// observer reads by calling Len, Size, Len, Size, ... back to back must be
+// monotone too. Two methods that are each linearizable but are served from
+// separately updated copies break the chain. No delays are injected: the
+// windows in question have no callback or store call inside them.
+func c09monotoneCase(c *fw.Ctx, r *rand.Rand) {
+	n := 20000 + r.IntN(60000)
+	bare := r.IntN(2) == 0
+	var ch *cache.Cache[int, CVal]
+	if bare {
+		ch = cache.New(1<<30, cache.LRU[int, CVal]())
+	} else {
+		ch = cache.New(1<<30, cache.LRU[int, CVal]().OnEvict(func(int, CVal) {}))
+	}
+	var phase atomic.Int32 // 0 growing, 1 shrinking, 2 done
+	var bad atomic.Value
+	var probes atomic.Int64
+	var wg sync.WaitGroup
+	nobs := 1 + r.IntN(3)
+	for o := 0; o < nobs; o++ {
+		wg.Add(1)
+		go func(o int) {
+			defer wg.Done()
+			for phase.Load() < 2 {
+				ph := phase.Load()
+				var chain [6]int64
+				for i := range chain {
+					if (i+o)%2 == 0 {
+						chain[i] = int64(ch.Len())
+					} else {
+						chain[i] = ch.Size()
+					}
+				}
+				probes.Add(1)
+				if phase.Load() != ph {
+					continue // the phase changed while reading: not comparable
+				}
+				for i := 1; i < len(chain); i++ {
+					if (ph == 0 && chain[i] < chain[i-1]) || (ph == 1 && chain[i] > chain[i-1]) {
+						bad.CompareAndSwap(nil, fmt.Sprintf("while the cache only %s, successive calls (Len and Size alternating, starting with %s) by one goroutine returned %v", map[int32]string{0: "grew", 1: "shrank"}[ph], map[bool]string{true: "Len", false: "Size"}[o%2 == 0], chain))
+						return
+					}
+				}
+			}
+		}(o)
+	}
+	for k := 0; k < n; k++ {
+		ch.Put(k, CVal{ID: k, Sz: 1})
+		if k&1023 == 0 {
+			c.Step()
+		}
+	}
+	phase.Store(1)
+	for k := 0; k < n; k++ {
+		ch.Remove(k)
+		if k&1023 == 0 {
+			c.Step()
+		}
+	}
+	phase.Store(2)
+	wg.Wait()
+	c.Add("monotone_observation_cases", 1)
+	c.Add("monotone_observation_probes", probes.Load())
+	if v := bad.Load(); v != nil {
+		c.Fail(map[string]any{"phase": "monotone observations", "entries": n, "observers": nobs, "plain_cache_without_callback": bare, "gomaxprocs": runtime.GOMAXPROCS(0)}, "%s", v.(string))
+	}
+}
+
 func runC09(c *fw.Ctx) {
 	procs := []int{1, 2, 4, 16}[c.Block%4]
 	old := runtime.GOMAXPROCS(procs)
@@ -949,6 +1020,16 @@ func runC09(c *fw.Ctx) {
 			if !ok {
 				c.FailKind("panic", map[string]any{"phase": "invariant case"}, "panic: %v\n%s", pv, stack)
 			}
+		}
+	}
+	for i := 0; i < c.Pick(6, 80); i++ {
+		if !c.Begin(1<<23 + i) {
+			continue
+		}
+		r := c.Rng()
+		ok, pv, stack := fw.Try(func() { c09monotoneCase(c, r) })
+		if !ok {
+			c.FailKind("panic", map[string]any{"phase": "monotone observations"}, "panic: %v\n%s", pv, stack)
 		}
 	}
 	base := 1 << 20
